@@ -351,12 +351,31 @@ class FxBuilder(Builder):
             return self.ev_local(fr, pe[2])
         if pe[0] == "field":
             base = self._load_local(fr, pe[1])
-            return N(self.field(base, pe[2], pe[3] if len(pe) > 3 else 0))
+            return self._field_of(base, pe[2], pe[3] if len(pe) > 3 else 0)
+        if pe[0] == "tbl":
+            base = self._load_local(fr, pe[1])
+            if base[0] in ("var", "upd"):
+                return ("var", _root(pe)[2], "?")
+            return ("tbl", base, pe[2])
         if pe[0] == "downcast":
             return ("downcast", self._load_local(fr, pe[1]), pe[2])
         if pe[0] == "index":
             return ("index", self._load_local(fr, pe[1]), pe[2])
         return ("var", _root(pe)[2], "?")
+
+    def _field_of(self, value, name, idx):
+        """Field of a local's value that may be a base value with overrides and/or a merge of such."""
+        if value[0] == "upd":
+            for nm, v in value[2]:
+                if nm == name:
+                    return v
+            return self._field_of(value[1], name, idx)
+        if value[0] == "phi":
+            vals = [(l, self._field_of(v, name, idx)) for l, v in value[3]]
+            if all(v == vals[0][1] for _l, v in vals):
+                return vals[0][1]
+            return ("phi", value[1], value[2] + "." + name, tuple(vals))
+        return N(self.field(value, name, idx))
 
     def store(self, pe, val, site, nodes):
         r = _root(pe)
@@ -375,6 +394,17 @@ class FxBuilder(Builder):
                 fields = list(cur[3])
                 fields[pe[3]] = val
                 fr.state[r[2]] = ("agg", cur[1], cur[2], tuple(fields))
+            elif pe[0] == "field" and pe[1][0] == "local":
+                # field update of a by-ref local whose value is not a literal aggregate: base value + overrides
+                base = cur if cur is not None else self.ev_local(fr, r[2])
+                ovs = ()
+                if base[0] == "upd":
+                    ovs = tuple(x for x in base[2] if x[0] != pe[2])
+                    base = base[1]
+                fr.state[r[2]] = ("upd", base, ovs + ((pe[2], val),))
+                nm = fr.body.names.get(r[2])
+                if nm and nodes is not None:
+                    nodes.append(("lstore", fr.fn.id, r[2], "%s.%s" % (nm, pe[2]), val, site))
             else:
                 fr.state[r[2]] = ("var", r[2], fr.body.names.get(r[2], "_%d" % r[2]))
             return
@@ -580,6 +610,9 @@ class FxBuilder(Builder):
                 join = pd.get(b)
                 if join is None or join == EXIT:
                     join = None
+                elif fr.depth == 0 and not body.blocks[join]["stmts"] and body.blocks[join]["term"]["k"] == "ret":
+                    # the common return block: duplicate the `ret` into the branches so that each keeps its own literal result
+                    join = None
                 order = []
                 for tb, vals in targets.items():
                     if tb == t["else"]:
@@ -613,9 +646,18 @@ class FxBuilder(Builder):
                 # merge: keep values equal in all continuing branches
                 merged = {}
                 if states:
-                    keys = set(states[0])
-                    for s in states[1:]:
-                        keys &= set(s)
+                    keys = set()
+                    for s in states:
+                        keys |= set(s)
+
+                    def dflt(key):
+                        if 1 <= key <= body.argc:
+                            return fr.env[key - 1] if fr.env is not None else ("param", key, body.names.get(key, "_%d" % key))
+                        return ("var", key, body.names.get(key, "_%d" % key))
+                    for s in states:
+                        for key in keys:
+                            if key not in s:
+                                s[key] = base_state.get(key, dflt(key))
                     for key in keys:
                         v0 = states[0][key]
                         if all(s[key] == v0 for s in states[1:]):
